@@ -65,6 +65,8 @@ struct St {
     bvisits: BTreeMap<u64, u64>,  // scenario -> before-hook calls (= attempts, when the before hook is installed)
     use_before: bool,
     steps: BTreeMap<u64, u64>,    // scenario -> number of steps per attempt
+    yields: BTreeMap<u64, u64>,   // scenario -> times a released step suspends again before it returns
+    after_gated: bool,            // the after hook waits for a gate of its own (key 500000 + scenario)
     step_no: BTreeMap<u64, u64>,  // scenario -> steps entered in the current attempt
     parser_allowed: usize,
     parser_waker: Option<Waker>,
@@ -78,6 +80,21 @@ thread_local! {
 static BEAT: AtomicU64 = AtomicU64::new(0);
 static POLLING: AtomicBool = AtomicBool::new(false);
 static CASE_ID: AtomicU64 = AtomicU64::new(0);
+
+/// Returns Pending `n` times, waking itself each time (a step that suspends after it has been released).
+struct YieldN(u64);
+impl Future for YieldN {
+    type Output = ();
+    fn poll(mut self: Pin<&mut Self>, cx: &mut Context<'_>) -> Poll<()> {
+        if self.0 == 0 {
+            Poll::Ready(())
+        } else {
+            self.0 -= 1;
+            cx.waker().wake_by_ref();
+            Poll::Pending
+        }
+    }
+}
 
 struct Gate {
     key: u64,
@@ -119,7 +136,7 @@ fn gated_step(_: &mut W, ctx: step::Context) -> LocalBoxFuture<'_, ()> {
     async move {
         let sid = scen_of(&ctx.step.value);
         // which attempt of the scenario is this, and which of its steps
-        let (k, last, nfail) = ST.with(|s| {
+        let (k, last, nfail, yields) = ST.with(|s| {
             let mut s = s.borrow_mut();
             let nsteps = s.steps.get(&sid).copied().unwrap_or(1);
             let no = s.step_no.entry(sid).or_insert(0);
@@ -137,10 +154,12 @@ fn gated_step(_: &mut W, ctx: step::Context) -> LocalBoxFuture<'_, ()> {
             } else {
                 s.visits.get(&sid).copied().unwrap_or(1) - 1
             };
-            (k, last, s.fails.get(&sid).copied().unwrap_or(0))
+            (k, last, s.fails.get(&sid).copied().unwrap_or(0), s.yields.get(&sid).copied().unwrap_or(0))
         });
         verif_trace::record("cb", sid, k * 2);
         Gate { key: sid }.await;
+        // attempts released together do not complete in lock-step: some suspend a few more times
+        YieldN(yields).await;
         verif_trace::record("cb", sid, k * 2 + 1);
         if last && k < nfail {
             // a failed attempt ends here: the next attempt starts with step 1 again
@@ -169,7 +188,12 @@ fn after_hook<'a>(
         };
         (k, s.afails.get(&sid).copied().unwrap_or(0))
     });
+    let gated = ST.with(|s| s.borrow().after_gated);
     async move {
+        if gated {
+            // the hook takes (virtual) time: it waits for a gate of its own, clock ticks may pass meanwhile
+            Gate { key: 500_000 + sid }.await;
+        }
         if k < n {
             std::panic::panic_any(format!("panic#{}", 50 + k));
         }
@@ -349,11 +373,13 @@ pub fn run(case: &Value) -> Value {
                     s.afails.insert(sid, sc["afails"].as_u64().unwrap_or(0));
                     s.bfails.insert(sid, (sc["bfails"].as_u64().unwrap_or(0), sc["beager"].as_bool().unwrap_or(false)));
                     s.steps.insert(sid, sc["steps"].as_u64().unwrap_or(1));
+                    s.yields.insert(sid, sc["yields"].as_u64().unwrap_or(0));
                 });
             }
             items.push(Ok(build_feature(it)));
         }
     }
+    ST.with(|s| s.borrow_mut().after_gated = case["after_gated"].as_bool().unwrap_or(false));
     let nitems = items.len() + 1; // + end of stream
     let eager = case["eager"].as_bool().unwrap_or(false);
     if eager {
@@ -444,8 +470,20 @@ pub fn run(case: &Value) -> Value {
     let mut rounds = 0;
     let max_rounds = case["max_rounds"].as_u64().unwrap_or(400);
     let p_multi = case["p_multi"].as_u64().unwrap_or(0) as usize;
+    // `real_wait`: now and then the harness lets REAL time pass while the runner is quiescent. The hooked runner keeps
+    // no real-time timer (its sleeps are virtual-clock advances), so nothing may happen; a timer thread that fires
+    // wakes the stream and whatever it does shows in the history.
+    let mut real_waits = if case["real_wait"].as_bool().unwrap_or(false) { 3 } else { 0 };
     while !done && rounds < 4000 {
         rounds += 1;
+        if real_waits > 0 && rounds > 2 && rng.below(100) < 25 {
+            real_waits -= 1;
+            std::thread::sleep(Duration::from_millis(45));
+            pump(&mut evs, &mut done, &mut received);
+            if done {
+                break;
+            }
+        }
         // several stimuli may be applied before the stream is polled again, so that more than one
         // attempt can complete within the same poll
         let burst = if rng.below(100) < p_multi { 2 + rng.below(2) } else { 1 };
